@@ -1100,8 +1100,8 @@ def check_fault(plan, outcome, attempts, d, msg):
         if outcome != "prm" or attempts != len(plan):
             return ("every strategy rejected but the constructor did not raise ParserRejectedMarkup after trying each once",
                     f"ParserRejectedMarkup after {len(plan)} attempts", f"{outcome} after {attempts}")
-        if plan and all(st[4][0] == "counted" for st in plan) and msg.count("injected rejection") != len(plan):
-            return ("the final ParserRejectedMarkup does not list every rejection", len(plan), msg[:300])
+        # (the WORDING of the final ParserRejectedMarkup - whether it lists every rejection, once or de-duplicated - is free: the property
+        #  fixes the class of the exception only; an earlier version of this oracle demanded one mention per rejection: a false alarm)
         return None
     if outcome != "tree":
         return ("k rejections followed by acceptance did not yield a tree", "tree", f"{outcome}: {msg}")
@@ -1854,6 +1854,12 @@ def aggregate(ctx, drv, cases, results):
             already = rec["outcome"].startswith("other")
             if what == "outcome" and already:
                 continue  # reported above with the real exception
+            if what == "warning" and a.startswith("ok ") and b.startswith("ok "):
+                # WHICH short tag-less inputs draw a MarkupResemblesLocatorWarning is behaviour the property leaves free (it only demands
+                # that the heuristic never makes the constructor fail): a difference of warning KIND between model and code is recorded,
+                # not reported (false alarm found by the free-behaviour round: more URL schemes / extensions recognised)
+                ctx.count("free:locator-warning-kind-differs")
+                continue
             if capped(ctx, "construct-correspondence", what):
                 continue
             ctx.violation(f"model and implementation disagree on the {what}", case=case | {"line": l if len(l) < 400 else l[:400] + '…'}, observed=a, model=b,
